@@ -91,7 +91,7 @@ theorem C03_envelope_cache_invariant {K : Type} [Scalar K] (W : C04.World K) (in
 /-! ### chol / gso / svd (solver entry) and class `Adj` -/
 
 /-- **chol, gso.**  After any history (queries, `min_x…`, `reset()`, `reset(A', b')` of any size; hypotheses of
-    `C04.full_answer_denotes`: the configured regularisation resolves the defect of every system handed over) the
+    `C04.full_answer_denotes_resolving`: the configured regularisation resolves the defect of every system handed over) the
     number denoted by a cofactor answer is the field of the numeric solver model run ONCE on the current problem `p`
     with the configuration the caller left — a function of `(p, configuration, query)`: two histories that end with
     the same problem and configuration (one of them may be empty: a fresh object) give the same cofactors.
@@ -113,8 +113,8 @@ theorem C03_cofactors_history_independent_full {K : Type} [Scalar K] (p : Ls.Pro
     C04.Full.denoteF (C04.Full.algOf k) p (C04.Full.cfgReg h.s.useAll h.s.list) (C04.Full.hfstep k h (.q op)).2
       = C04.Full.denoteF (C04.Full.algOf k) p (C04.Full.cfgReg h'.s.useAll h'.s.list) (C04.Full.hfstep k h' (.q op)).2 := by
   intro h h' hF hF' eu el
-  have e1 := Gama.Props.C04.full_answer_denotes p k inp0 ua l0 h0 ops hops op hop hF
-  have e2 := Gama.Props.C04.full_answer_denotes p k inp0' ua' l0' h0' ops' hops' op hop' hF'
+  have e1 := Gama.Props.C04.full_answer_denotes_resolving p k inp0 ua l0 h0 ops hops op hop hF
+  have e2 := Gama.Props.C04.full_answer_denotes_resolving p k inp0' ua' l0' h0' ops' hops' op hop' hF'
   rw [e1, e2]
   show C04.Full.answerF _ p h.s.useAll h.s.list op = C04.Full.answerF _ p h'.s.useAll h'.s.list op
   rw [eu, el]
